@@ -418,8 +418,6 @@ class Ideal:
         """True = the message gets a place, False = it is legitimately refused, None = beyond what the property fixes"""
         if key in self.open:
             return True
-        if len(self.open) + self.superseded >= self.slots:
-            self.features.add('stale-possible')       # a superseded run may still hold a place of its own (finding 'complete-stale')
         if len(self.open) < self.slots:
             return True
         # table full: the oldest place is reused once it is 100 ms old
@@ -442,9 +440,8 @@ class Ideal:
         """-> list of deliveries (pri,pgn,src,dst,len,data) this frame completes"""
         pri, pgn, src, dst = decode_id(idv)
         if pgn == 60416:
-            if buf[0] == 32:       # broadcast announce: takes a place in the table (ISO-TP itself is C10)
-                tpgn = buf[5] | buf[6] << 8 | buf[7] << 16
-                key = (tpgn, src, dst, True)
+            if buf[0] == 32:       # broadcast announce: takes a place in the table (ISO-TP itself is C10); one session per source/destination
+                key = ('tp', src, dst, True)
                 r = self.need_slot(key, now)
                 if r:
                     self.order += 1
